@@ -601,7 +601,11 @@ func main() {
 		"and perm-loss (<= %d segments), two-message arrival sequences, counter wrap, the odd datagrams (thorough: all 29524; quick: lengths 0..4 over {00,01,ff} and 5..9 over {00,ff}) and index-beyond-count again through transport/quic's unreliable path on a fake quic.Connection, every such case in a sacrificial child process (%d children were started). "+
 		"NOT covered here: the mode-S part of C14 (two goroutines calling Receive/RemoveExpired concurrently); webtransport's unreliable path (same segment code, needs a real session); expiry through the transport's real-time ticker.",
 		P, maxSize, fullN, map[bool]string{true: "three in-flight messages: every arrival sequence for unions <= 7 segments, every order-preserving interleaving x every loss subset for 8..9; ", false: ""}[T], P, realPayload, qN, spawned)
-	e.Finish(rule, true, map[string]any{"payload_size": P, "real_payload_size": realPayload, "child_processes": spawned},
+	skipped := atomic.LoadInt64(&skippedAfterHangs)
+	if skipped > 0 {
+		rule += fmt.Sprintf(" %d cases of the quic transport family were skipped after %d hang verdicts (each costs a 30 s watchdog).", skipped, atomic.LoadInt64(&hangVerdicts))
+	}
+	e.Finish(rule, skipped == 0, map[string]any{"payload_size": P, "real_payload_size": realPayload, "child_processes": spawned, "skipped_after_hangs": skipped},
 		[]string{"QUIC neither duplicates nor corrupts DATAGRAM frames; the duplicate-datagram family goes beyond the stated fault model (reported under its own signature)",
 			"two in-flight messages never share a sequence number unless the first one completed or expired",
 			"the fake quic.Connection delivers datagrams in the enumerated order; an end-marker message makes 'nothing more is handed up' observable without timing"})
